@@ -224,7 +224,7 @@ _UH_SITE = "graphiq.solvers.solver_base:RandomSearchSolver.update_hof"
 
 
 @S.item("update_hof.contract_grid", site=_UH_SITE, exhaustive=True,
-        bound="n_hof in {2,3}; every sorted hall of fame over scores {0,0.25,0.5,1,inf-sentinel} (ties allowed) x circuit sizes "
+        bound="n_hof in {1,2,3}; every sorted hall of fame over scores {0,0.25,0.5,1,inf-sentinel} (ties allowed) x circuit sizes "
               "{1,2 gates}; every population of 1 or 2 members over scores {0,0.25,0.5,1} x sizes {1,2}",
         clause="ordered by non-decreasing score; best never gets worse; first entry is the best; entries are previous "
                "entries or fresh copies of population members")
@@ -261,7 +261,7 @@ def grid_cases():
     out = []
     pops1 = [[[s, n]] for s in vals[:4] for n in (1, 2)]
     pops2 = [a + b for a in pops1 for b in pops1]
-    for n_hof in (2, 3):
+    for n_hof in (1, 2, 3):
         for combo in itertools.combinations_with_replacement(range(5), n_hof):
             sc = [vals[i] for i in combo]
             fin = [s for s in sc if s != "inf"]
@@ -333,7 +333,7 @@ _SOLVE_SITE = "graphiq.solvers.evolutionary_solver:EvolutionarySolver.solve"
 
 @S.item("solve.generation_invariants", site=_SOLVE_SITE,
         bound="targets path2/path3/star4/path4/cycle4 x solvers {evolutionary (1-2 emitters), hybrid} x (n_pop,n_stop,n_hof) in "
-              "{(4,3,2),(8,5,3)} x selection on/off x adaptive on/off x seeds; stabilizer compiler (+ density-matrix compiler for "
+              "{(4,3,2),(8,5,3),(6,4,1)} x selection on/off x adaptive on/off x seeds; stabilizer compiler (+ density-matrix compiler for "
               "the evolutionary solver), measurement_determinism=1",
         clause="after every generation: hof ordered, stored score = metric re-evaluated on stored circuit, best never worse; "
                "on exit result = best entry")
@@ -433,7 +433,7 @@ def _bulk(args):
 
 
 @S.item("solve.reproducible_across_hashseeds", site="graphiq.solvers.solver_base:SolverBase.seed",
-        bound="targets path3, cycle4 x solvers {evolutionary with 1 and 2 emitters, hybrid} x (n_pop,n_stop,n_hof) in {(4,3,2),(8,5,3)} "
+        bound="targets path3, cycle4 x solvers {evolutionary with 1 and 2 emitters, hybrid} x (n_pop,n_stop,n_hof) in {(4,3,2),(8,5,3),(6,4,1)} "
               "x (selection, adaptive) in {off/off, on/on} x seeds: the same config in two fresh interpreters with PYTHONHASHSEED=1 and 2",
         clause="fixed seed => same hall of fame, whatever the interpreter's hash seed (set iteration order must not reach a random index)")
 def repro_proc_case(cfg):
@@ -460,7 +460,7 @@ def configs(seeds, with_dm):
         if tname in ("path3", "cycle4"):
             variants.append(("evo", 2))
         for solver, ne in variants:
-            for (n_pop, n_stop, n_hof) in ((4, 3, 2), (8, 5, 3)):
+            for (n_pop, n_stop, n_hof) in ((4, 3, 2), (8, 5, 3), (6, 4, 1)):
                 for sel in (False, True):
                     for adapt in (False, True):
                         for seed in seeds:
@@ -481,7 +481,7 @@ def run(tier, seed):
     S.map("update_hof.near_ties", NEAR_TIES)
     S.map("tournament_selection.contract",
           [{"n_pop": n, "k": k, "seed": base + s} for n in (4, 6) for k in (0, 1, 2, 3) for s in range(40 if thorough else 10)])
-    inv = configs([base + s for s in range(24 if thorough else 6)], with_dm=True)
+    inv = configs([base + s for s in range(24 if thorough else 5)], with_dm=True)
     S.map("solve.generation_invariants", inv, chunksize=4)
     rep = configs([base + s for s in range(8 if thorough else 2)], with_dm=True)
     S.map("solve.reproducible_same_process", rep, chunksize=4)
@@ -491,10 +491,17 @@ def run(tier, seed):
     nb = max(1, min(len(hs), procs))
     jobs = [(hs[i::nb], h) for i in range(nb) for h in (1, 2)]
     import multiprocessing.pool as mpp
+    import time
+    t0 = time.time()
     with mpp.ThreadPool(procs) as tp:
         outs = tp.map(_bulk, jobs)
+    S.items["solve.reproducible_across_hashseeds"].wall_s += time.time() - t0
     for (cfgs, h), out in zip(jobs, outs):
         for i, c in enumerate(cfgs):
             _PROC_CACHE[(_ck(c), h)] = out if isinstance(out, str) else out[i]
     S.map("solve.reproducible_across_hashseeds", hs, procs=1)
+    S.note("hybrid solver is driven with a stabilizer target only: with a density-matrix target TimeReversedSolver.__init__ converts the "
+           "caller's target in place (C13) and Infidelity.evaluate then raises UnboundLocalError - not a C19 clause")
+    S.note("'stored score = metric re-evaluated' uses solve()'s own pipeline (compile, trace out emitters, metric.evaluate) with the "
+           "solver's compiler, measurement_determinism=1; the probabilistic mode is excluded (a statement about one draw)")
     return S
